@@ -59,9 +59,24 @@ class Reader:
 
 
 class Writer:
+    """What the client at the other end receives.  A client reads one line per request it sent (`next_line`);
+    several replies in one write, or a reply that belongs to somebody else, shift what it reads - as in reality."""
+
     def __init__(self):
         self.out = []
         self.broken = False
+        self.nread = 0
+
+    def all_lines(self):
+        data = b"".join(self.out)
+        return [ln + b"\n" for ln in data.split(b"\n") if ln != b""]
+
+    def next_line(self):
+        lines = self.all_lines()
+        if self.nread >= len(lines):
+            return None
+        self.nread += 1
+        return lines[self.nread - 1]
 
     def write(self, b):
         if self.broken:
@@ -146,9 +161,10 @@ def _run(lines, drop, when, legit):
         pool.pending_names.append("b0")
         rb.feed(msg("enqueue_task", name="b0", script="job b0", time_limit=None, working_dir="/vfs/proj", deps=[]))
         pool.settle()
-        if not wb.out:
+        ln = wb.next_line()
+        if ln is None:
             return "B's enqueue got no answer"
-        first = json.loads(wb.out[0])
+        first = json.loads(ln)
         if first.get("__kind__") != "task_enqueued":
             return "B's enqueue answered %r" % (first,)
         tidb = first["tid"]
@@ -189,8 +205,14 @@ def _run(lines, drop, when, legit):
             return "the healthy client's connection handler died (%r) after A sent %s" % (tb.exception() if not tb.cancelled() else "cancelled", [l for l, d in lines])
         rb.feed(msg("get_task_states"))
         pool.settle()
-        raw = wb.out[-1].decode()
-        ans = json.loads(raw)
+        ln = wb.next_line()
+        if ln is None:
+            return "B's state query got no answer (A sent %s)" % [l for l, d in lines]
+        raw = ln.decode()
+        try:
+            ans = json.loads(raw)
+        except ValueError:
+            return "B's state query was answered with %r" % (raw[:80],)
         if ans.get("__kind__") != "task_states":
             return "B's state query answered %r" % (ans,)
         keys = [k for k, v in json.loads(raw, object_pairs_hook=lambda pairs: pairs)[1][1]] if False else None
@@ -210,8 +232,11 @@ def _run(lines, drop, when, legit):
                 return "accepted task %s is stuck in %s after everything was delivered (A sent %s)" % (t, st.name, [l for l, d in lines])
         all_ids = []
         for w in (wa, wb):
-            for o in w.out:
-                d = json.loads(o)
+            for o in w.all_lines():
+                try:
+                    d = json.loads(o)
+                except ValueError:
+                    return "the pool wrote a line that is not JSON: %r" % (o[:80],)
                 if d.get("__kind__") == "task_enqueued":
                     all_ids.append(d["tid"])
         if len(set(all_ids)) != len(all_ids):
@@ -222,7 +247,10 @@ def _run(lines, drop, when, legit):
         pool.pending_names.append("b1")
         rb.feed(msg("enqueue_task", name="b1", script="job b1", time_limit=None, working_dir="/vfs/proj", deps=[tidb]))
         pool.settle()
-        last = json.loads(wb.out[-1])
+        ln = wb.next_line()
+        if ln is None:
+            return "a later enqueue of B got no answer"
+        last = json.loads(ln)
         if last.get("__kind__") != "task_enqueued" or last["tid"] in all_ids:
             return "a later enqueue was answered %r (ids so far %s)" % (last, all_ids)
         for p in pool.live():
